@@ -87,8 +87,18 @@ Proof. decide equality; [apply list_eq_dec, Bool.bool_dec|apply obs_eq_dec]. Def
     second boundaries a checkout may cross and compares new time stamps by interval); if the client saw its statement fail ([ek = Some k]) the handed-out server is
     banned by [ExecFail].  Each observation carries, per contacted address, whether it was
     health-checked. *)
+Fixpoint is_prefix (p l : list addr) : bool :=
+  match p, l with
+  | [], _ => true
+  | x :: p', y :: l' => if addr_eq_dec x y then is_prefix p' l' else false
+  | _ :: _, [] => false
+  end.
+
+(** [first]: addresses known to be popped first, in this order (least-outstanding-connections mode
+    with strictly fewer busy connections than every other candidate); [[]] = nothing known. *)
 Definition tie_txn (c : cfg) (bl : banlist) (req : option role) (shard : option nat)
-                   (opts : list (addr * list outcome)) (nows : list Z) (ek : option exec_kind) : list tobs :=
+                   (opts : list (addr * list outcome)) (nows : list Z) (ek : option exec_kind)
+                   (first : list addr) : list tobs :=
   nodup tobs_eq_dec
     (flat_map (fun now =>
        flat_map (fun asg =>
@@ -102,13 +112,13 @@ Definition tie_txn (c : cfg) (bl : banlist) (req : option role) (shard : option 
                 | Ok a, Some k => (proj (g, ct, step c bl1 (ExecFail a k now)), hcs)
                 | _, _ => (proj (g, ct, bl1), hcs)
                 end)
-             (perms (candidates c req (effective_sel c shard))))
+             (filter (fun order => is_prefix first (rev order)) (perms (candidates c req (effective_sel c shard)))))
          (assigns opts))
        nows).
 
 Definition tie_get (c : cfg) (bl : banlist) (req : option role) (shard : option nat)
                    (opts : list (addr * list outcome)) (nows : list Z) : list obs :=
-  nodup obs_eq_dec (map fst (tie_txn c bl req shard opts nows None)).
+  nodup obs_eq_dec (map fst (tie_txn c bl req shard opts nows None [])).
 
 Definition tie_step (c : cfg) (bl : banlist) (o : op) : list (nat * reason * Z) := proj_bl (step c bl o).
 
